@@ -9,6 +9,8 @@ joined by `,`, the empty list is `-`.
 * `lit <id> <kind> <nestshape> <leaves> <dbg>` / `rt <kind> <dbg>` — a literal front end on a Debug text
   (`kind` ∈ generic tuple list char string); `lit` additionally reports whether `nest nestshape leaves = dbg`.
   Answer: `ok <shape>:<element texts> [dbg=0|1]` or `panic`.
+  (Round 5: for a compiled literal with IMPURE items - `it.next().unwrap()`, `{ n += 1; n }`, `st.pop().unwrap()` - `<dbg>` is the Debug text of
+  its pure twin; the harness compares the impure literal with this answer and checks that every item was evaluated exactly once.)
 * `shape <ndim> <text>` — `array_parse_shape!`.
 * `ctor <id>` — the constructor / flat / single macros expand to the function call itself: answer `ok same`.
 * `disp <alt> <shape> <element texts>` — `build_string`; answer `ok <text> <parse-back by the generic literal arm>`.
